@@ -31,6 +31,8 @@ T(n) ==
          {Bin(k, l, r) : k \in BinK, l \in T(i), r \in T(n - i)}
          \cup {VecE(<<l, r>>) : l \in T(i), r \in T(n - i)}
          \cup {MapE(<< <<S("a"), l>>, <<S("b"), r>> >>) : l \in T(i), r \in T(n - i)}
+         \cup {Idx(VecE(<<l, r>>), PosI(p)) : l \in T(i), r \in T(n - i), p \in {0, 1, 2}}
+         \cup {Idx(MapE(<< <<S("a"), l>>, <<S("b"), r>> >>), FieldI(S(f))) : l \in T(i), r \in T(n - i), f \in {"a", "b", "zz"}}
        : i \in 1..(n - 1) }
        \cup (IF n >= 3 THEN UNION { {If(c, t, f) : c \in T(i), t \in T(j), f \in T(n - i - j)}
                                      : <<i, j>> \in {p \in (1..(n-2)) \X (1..(n-2)) : p[1] + p[2] <= n - 1} }
